@@ -160,7 +160,21 @@ class GoExec:
         return results
 
     # ------------------------------------------------------------------ obligations
+    def panics_unconstrained(self):
+        """`panics_only_if true` (and no panic_ensures): the contract says nothing about panics, so a run-time panic (nil
+        dereference, index out of range, nil map write) just ends the path"""
+        c = self.frame.contract if self.frame else None
+        if not c:
+            return False
+        if '_pu' not in self.frame.__dict__:
+            po = c.get('panics_only_if')
+            self.frame._pu = bool(po) and any(cl.text.strip() == 'true' for cl in po) and not c.get('panic_ensures')
+        return self.frame._pu
+
     def oblige(self, st, name, goal, kind='proof', extra=(), src=None, meta=None):
+        if kind == 'proof' and name.startswith(('nil@', 'bounds@', 'slicebounds@', 'nilmap@')) and self.panics_unconstrained():
+            st.assume(goal)            # the other case is a panic, which this contract allows
+            return
         r = simp_bool(goal) if kind == 'proof' else None
         if r is True:
             if re.match(r'(post#|inv-step#|panic-post#)', name):
@@ -462,6 +476,9 @@ class GoExec:
             return self.str_eq(a, b)
         if isinstance(a, (IfaceV, PtrV, FuncV)) or isinstance(b, (IfaceV, PtrV, FuncV)):
             ra, rb = self.refof(a), self.refof(b)
+            if isinstance(a, IfaceV) and isinstance(b, IfaceV) and a.tag is not None and b.tag is not None \
+               and not (z3.is_int_value(ra) and ra.as_long() == 0) and not (z3.is_int_value(rb) and rb.as_long() == 0):
+                return z3.And(ra == rb, z3.Or(ra == 0, a.tag == b.tag))      # same dynamic type as well (nil has none)
             return ra == rb
         if isinstance(a, SliceV) and isinstance(b, SliceV):      # only comparison with nil is legal Go
             return a.isnil if b is not a and simp_bool(b.isnil) else b.isnil
